@@ -1,6 +1,15 @@
 // Contract and proof harness for the default `AxelarExecutableInterface::validate_message`
 // (contracts/axelar-gateway/src/executable.rs), on a minimal application that uses the default.
 use super::*;
+// named explicitly: the harness must not depend on which of these the file under verification happens to import
+use axelar_soroban_std::ensure;
+use soroban_sdk::contractclient;
+use soroban_sdk::Address;
+use soroban_sdk::Bytes;
+use soroban_sdk::Env;
+use soroban_sdk::String;
+use crate::AxelarGatewayMessagingClient;
+use soroban_sdk::contracterror;
 use soroban_sdk::shim::{self, inst, pers, temp, Wordy, Words};
 use soroban_sdk::BytesN;
 
